@@ -17,6 +17,16 @@ def conv_expected(pdef, val):
     """-> ('ok', expected) | ('error',) | ('either', expected) for lossy-but-convertible numerics"""
     t = pdef.type
     cls = val.__class__.__name__
+    if cls != t and isinstance(val, {"int": int, "float": float, "str": str}.get(t, ())) or cls in ("float64", "int64", "str_"):
+        # an instance of a subclass of the declared type (bool for int, numpy.float64 for float, a str subclass): it may
+        # be rejected, but if it is accepted the result must be a plain value of the declared type
+        try:
+            exp = {"int": int, "float": float, "str": str}[t](val)
+        except Exception:
+            return ("error",)
+        if pdef.values and exp not in pdef.values:
+            return ("error",)
+        return ("either", exp)
     if cls == t:
         exp = val
         status = "ok"
@@ -54,8 +64,19 @@ def conv_expected(pdef, val):
 
 def draw_value(rng, pdef):
     """a user value and its category"""
-    kind = rng.choice(["valid", "valid", "falsy", "as_str", "wrong_type", "outside", "garbage_str"])
+    kind = rng.choice(["valid", "valid", "falsy", "as_str", "wrong_type", "outside", "garbage_str", "subclass"])
     t = pdef.type
+    if kind == "subclass":
+        import numpy as np
+
+        class MyStr(str):
+            pass
+
+        if t == "int":
+            return rng.choice([True, False, np.int64(3)])
+        if t == "float":
+            return rng.choice([np.float64(0.25), np.float64(1.0), True])
+        return rng.choice([np.str_(rng.choice(pdef.values) if pdef.values else "x"), MyStr(rng.choice(pdef.values) if pdef.values else "y")])
     if kind == "valid":
         if pdef.values:
             return rng.choice(pdef.values)
@@ -141,7 +162,7 @@ def check_one(rng, algo, mod, R):
         return problems, witness
     for n, e in expected.items():
         gv = got[n]
-        if gv != e[1] or (e[0] == "ok" and n in user and type(gv).__name__ != by_name[n].type and gv is not None):
+        if gv != e[1] or (e[0] in ("ok", "either") and n in user and type(gv).__name__ != by_name[n].type and gv is not None):
             key = "%s:wrong-value" % api
             if n in user and not user[n] and user[n] is not None:
                 key = "%s:falsy-user-value-replaced" % api
